@@ -382,3 +382,95 @@ Proof.
   - exists x'. split; [exact Es|]. split; [exact Hl|]. split; [exact I'|]. split; [exact E'|].
     rewrite (l_abs_len _ len E'), (l_abs_len x len E), HL. apply firstn_splice; lia.
 Qed.
+
+(* ---------------------------------------------------------------- rc *)
+(* a run inside one block, read from the lane vector *)
+Lemma sub_lanes_of ws b o n : (b < length ws)%nat -> (o + n <= 32)%nat ->
+  sub (32 * b + o) n (lanes_of ws) = sub o n (decode 32 (nth b ws 0)).
+Proof.
+  intros Hb Ho. apply nth_ext'.
+  - rewrite !sub_length; rewrite ?decode_length, ?lanes_of_length; lia.
+  - intros d i Hi. rewrite sub_length in Hi by (rewrite lanes_of_length; lia).
+    rewrite !nth_sub by exact Hi. replace (32 * b + o + i)%nat with (32 * b + (o + i))%nat by lia.
+    apply nth_lanes_of; lia.
+Qed.
+
+Lemma map_pv_zeros rho k : map (pv rho) (repeat (BF, BF) k) = repeat 0 k.
+Proof. induction k as [|k IH]; [reflexivity|]. cbn [repeat map]. now rewrite IH. Qed.
+
+Lemma l_rcword_spec n is_last w : w < two64 -> (1 <= n <= 32)%nat -> (is_last = true -> (n <= 28)%nat) ->
+  exists r, run (k_l_rcword n is_last (Var 0 64)) w 0 = Some r /\ r < two64 /\
+    decode 32 r = rc (firstn n (decode 32 w)) ++ repeat 0 (32 - n).
+Proof.
+  intros Hw Hn Hlast. pose proof sweep_l_rcword as H. rewrite forallb_forall in H. specialize (H n ltac:(apply in_seq; lia)).
+  apply andb_prop in H as [H1 H2].
+  assert (H : chk_l_rcword n is_last = true).
+  { destruct is_last; [|exact H1]. specialize (Hlast eq_refl). apply orb_prop in H2 as [H2|H2]; [|exact H2].
+    apply Nat.ltb_lt in H2. lia. }
+  unfold chk_l_rcword in H.
+  destruct (lane_check_lift c64 0 _ _ w 0 H (proj1 (wf64 w) Hw) ltac:(cbn; lia)) as [r [Hr [Hwf Hd]]].
+  exists r. split; [exact Hr|]. split; [now apply wf64|].
+  change (kK c64) with 32%nat in Hd. rewrite Hd, map_app, map_pv_zeros. f_equal.
+  rewrite map_map. unfold rc. rewrite <- (stoS64_decode w 0 Hw). rewrite firstn_map, <- map_rev, map_map.
+  apply map_ext. intro p. apply pv_compS.
+Qed.
+
+Lemma firstn_repeat_le {A} (a : A) n m : (n <= m)%nat -> firstn n (repeat a m) = repeat a n.
+Proof.
+  intro H. replace m with (n + (m - n))%nat by lia. rewrite repeat_app. apply firstn_app_exact. now rewrite repeat_length.
+Qed.
+Lemma splice_tail {A} o (r m : list A) : length m = (o + length r)%nat -> splice o r m = firstn o m ++ r.
+Proof. intro H. unfold splice. rewrite skipn_all2 by lia. now rewrite app_nil_r. Qed.
+
+Lemma l_rc_loop_spec x len : l_inv x -> l_len x = Some len ->
+  forall fuel new block pos,
+  l_inv new -> l_len new = Some len -> l_size new = l_size x ->
+  (pos <= len)%nat -> ((pos < len)%nat -> pos = (32 * block)%nat) -> (len - pos <= 32 * fuel)%nat ->
+  l_abs new = repeat 0 (len - pos) ++ rc (firstn pos (l_abs x)) ->
+  exists r, l_rc_loop fuel x new len block pos = Some r /\ l_size r = l_size x /\ l_inv r /\ l_len r = Some len /\
+            l_abs r = rc (l_abs x).
+Proof.
+  intros Hinv E. pose proof Hinv as [Hs [Hw [len' [E' [Hmax _]]]]]. rewrite E in E'. injection E' as <-.
+  rewrite l_max_len_eq in Hmax. pose proof (l_abs_length x len Hinv E) as HA.
+  assert (Hdone : forall new, l_abs new = repeat 0 (len - len) ++ rc (firstn len (l_abs x)) -> l_abs new = rc (l_abs x)).
+  { intros new H. rewrite H, Nat.sub_diag. cbn [repeat app]. now rewrite firstn_all2 by lia. }
+  induction fuel as [|fuel IH]; intros new block pos Inew Enew Snew Hpl Hblk Hfuel Habs.
+  - assert (pos = len) by lia. subst pos. cbn [l_rc_loop]. rewrite Nat.ltb_irrefl. cbn [negb].
+    exists new. split; [reflexivity|]. split; [exact Snew|]. split; [exact Inew|]. split; [exact Enew|]. now apply Hdone.
+  - cbn [l_rc_loop]. destruct (Nat.ltb_spec pos len) as [Hlt|Hge]; cbn [negb].
+    + specialize (Hblk Hlt). set (n := Nat.min 32 (len - pos)).
+      assert (Hn : (1 <= n <= 32)%nat /\ (pos + n <= len)%nat) by (subst n; lia). destruct Hn as [Hn Hpn].
+      unfold subn at 1. unfold l_size in *. destruct (Nat.leb_spec 1 (length x)) as [_|?]; [|lia]. cbn [obind].
+      assert (Hb : (block < length x)%nat) by lia.
+      rewrite (nth_opt_some _ _ 0 Hb). cbn [obind].
+      destruct (l_rcword_spec n (Nat.eqb block (length x - 1)) (nth block x 0)) as [vrc [Er [Wr Dr]]];
+        [now apply l_block_lt64 | exact Hn | intro Eq; apply Nat.eqb_eq in Eq; subst n; lia |].
+      rewrite Er. cbn [obind]. unfold subn. destruct (Nat.leb_spec n (len - pos)) as [_|?]; [|lia]. cbn [obind].
+      destruct (l_set_slice_mut_spec new len (len - pos - n) n vrc Inew Enew Hn ltac:(lia) Wr) as [new' [Es [Ss [Is [Ls As]]]]].
+      rewrite Es. cbn [obind].
+      assert (Hrun : firstn n (decode 32 vrc) = rc (sub pos n (l_abs x))).
+      { rewrite Dr. rewrite firstn_app_exact by (rewrite rc_length, firstn_length, decode_length; lia). f_equal.
+        rewrite (l_abs_len x len E), sub_firstn by lia. rewrite Hblk.
+        change (firstn n (decode 32 (nth block x 0))) with (sub 0 n (decode 32 (nth block x 0))).
+        rewrite <- sub_lanes_of by lia. f_equal. lia. }
+      apply IH; try assumption; try lia.
+      * unfold l_size in *. lia.
+      * rewrite As, Hrun, Habs.
+        assert (Hsl : length (sub pos n (l_abs x)) = n) by (apply sub_length; lia).
+        rewrite splice_app_r by (rewrite rc_length, repeat_length; lia).
+        rewrite splice_tail by (rewrite rc_length, repeat_length; lia).
+        rewrite firstn_repeat_le by lia. rewrite <- app_assoc. f_equal; [f_equal; lia|].
+        rewrite <- rc_app. f_equal. unfold sub. apply firstn_firstn_skipn.
+    + assert (pos = len) by lia. subst pos. exists new. split; [reflexivity|]. split; [exact Snew|]. split; [exact Inew|]. split; [exact Enew|]. now apply Hdone.
+Qed.
+
+Theorem l_rc_spec x len : l_inv x -> l_len x = Some len ->
+  exists r, l_rc x = Some r /\ l_size r = l_size x /\ l_inv r /\ l_len r = Some len /\ l_abs r = rc (l_abs x).
+Proof.
+  intros Hinv E. pose proof Hinv as [Hs [Hw [len' [E' [Hmax _]]]]]. rewrite E in E'. injection E' as <-.
+  unfold l_rc. rewrite E. cbn [obind].
+  destruct (l_new_spec (l_size x) len Hs Hmax) as [new [En [Sn [In [Ln An]]]]]. rewrite En. cbn [obind].
+  rewrite l_max_len_eq in Hmax.
+  apply (l_rc_loop_spec x len Hinv E); try assumption; try lia.
+  rewrite An, Nat.sub_0_r. cbn [firstn]. unfold rc. cbn [rev map]. now rewrite app_nil_r.
+Qed.
